@@ -35,6 +35,7 @@ SALTS = {
     'NaCl': ('NaCl(s)', {'Na+': 1, 'Cl-': 1}, 0.6),
     'Ag2CrO4': ('Ag2CrO4(s)', {'Ag+': 2, 'CrO4-2': 1}, -11.9),
 }
+ACIDBASE = ('nh4', 'hoac', 'co3a', 'co3b')
 VARIANTS = ('default', 'log', 'lin', 'square', 'loglin', 'loglin_rref', 'condchain')
 LOG_SMALL = math.exp(-36)          # NumSysLog.small: "zero" in the logarithmic formulation
 
@@ -126,14 +127,19 @@ class C08(Property):
             'equilibria (constants +-2 decades, initial concentrations log-uniform 1e-6..1, water 55.5) under the default chain and '
             'the variants log/lin/square/loglin/loglin_rref/condchain; single-salt precipitation systems (5 salts, either '
             'direction); single equilibria against solve_equilibrium (brentq). Buckets "solve:*" in input_distribution carry the '
-            'outcome counts; the success rate of the default chain is evaluated by the case kind "rate". '
+            'outcome counts. Success rate (success & sane & genuine, threshold 80% of >= 40 runs) is evaluated by four "rate" cases: '
+            'root() default (NumSysLog) and the solve()/_solve default chain (NumSysLog, NumSysLin), each on the general pool and on '
+            'multi-equilibrium acid/base systems (water + 2-4 of ammonia/acetate/carbonate x2, constants +-1.5 decades, initial '
+            'concentrations 1e-6..1e-1). Structural "stages" cases: for multi-stage chains of every neqsys type the residual function '
+            'and post-processor of each per-stage system are compared with NumSys_i(eqsys).f evaluated directly. '
             'A case is non-trivial when it is a distinct JSON value.')
     assumptions = (
         'PARTIAL: convergence of pyneqsys/scipy (and what they call success) is runtime behaviour; it is sampled, not proved. '
         'The theorems cover the sanity check, the bounds, dissolved(), the switch conditions and the scalar bracket/residual.',
         'exact model vs Python driven with Fractions / dyadic floats; float rounding inside chempy is not modelled '
         '(numpy float division by zero giving inf/nan instead of ZeroDivisionError is outside the model)',
-        'success-rate criterion: the default chain must report success+sane on >= 80% of >= 40 well-conditioned homogeneous runs '
+        'success-rate criterion: each default chain (root: NumSysLog; solve/_solve: (NumSysLog, NumSysLin)) must give success, sane and '
+        'genuine results on >= 80% of >= 40 well-conditioned homogeneous runs, per pool '
         '(property asks 19/20; the margin avoids flakiness, the measured rate is in the failure text / notes)',
         'oracle tolerances: totals |delta| <= 1e-8*sum|a_kj c0_j| + 1e-10*max(c0), Q=K rtol 1e-6, solid counted as absent below max(4*exp(-36), 1e-12*scale)',
     )
@@ -147,6 +153,12 @@ class C08(Property):
         ('chempy/equilibria.py', 'EqSystem.root'),
         ('chempy/equilibria.py', 'EqSystem._solve'),
         ('chempy/equilibria.py', 'EqSystem.get_neqsys_chained_conditional'),
+        ('chempy/equilibria.py', 'EqSystem.get_neqsys_conditional_chained'),
+        ('chempy/equilibria.py', 'EqSystem.get_neqsys_static_conditions'),
+        ('chempy/equilibria.py', 'EqSystem.get_neqsys'),
+        ('chempy/equilibria.py', 'EqSystem._SymbolicSys_from_NumSys'),
+        ('chempy/equilibria.py', 'EqSystem.solve'),
+        ('chempy/_eqsys.py', 'EqCalcResult'),
         ('chempy/reactionsystem.py', 'ReactionSystem.upper_conc_bounds'),
         ('chempy/chemistry.py', 'Reaction.precipitate_stoich'),
         ('chempy/chemistry.py', 'Reaction._xprecipitate_stoich'),
@@ -486,10 +498,10 @@ class C08(Property):
         n_s = max(8, int(n * 0.15))
         n_1 = max(8, int(n * 0.12))
         names = list(POOL)
-        rate_specs = []
+        rate_specs, solve_specs, rate_ab, solve_ab = [], [], [], []
         others = [v for v in VARIANTS if v not in ('default', 'condchain')]
         i = 0
-        while len([c for c in cases if c['kind'] == 'homog']) < n_h:
+        while len(rate_specs) < max(42, n_h // 2):
             k = rng.choice([1, 1, 2, 2, 3])
             sel = rng.sample(names, k)
             subs = []
@@ -503,9 +515,47 @@ class C08(Property):
             d = dict(spec, variant='default')
             cases.append(d)
             rate_specs.append(d)
-            if len([c for c in cases if c['kind'] == 'homog']) < n_h:
-                cases.append(dict(spec, variant=others[i % len(others)]))
+            d2 = dict(spec, variant='solve')          # the (NumSysLog, NumSysLin) default chain of EqSystem.solve/_solve
+            cases.append(d2)
+            solve_specs.append(d2)
+            cases.append(dict(spec, variant=others[i % len(others)]))
             i += 1
+        # multi-equilibrium acid/base systems (water + 2..4 of ammonia / acetate / carbonate x2) sharing H+, spanning many decades
+        for j in range(max(42, n_h // 3)):
+            sel = ['water'] + rng.sample(ACIDBASE, rng.randint(2, 4))
+            subs = []
+            for nm in sel:
+                for s_ in list(POOL[nm][0]) + list(POOL[nm][1]):
+                    if s_ not in subs:
+                        subs.append(s_)
+            rng.shuffle(subs)
+            spec = {'kind': 'homog', 'family': 'acidbase', 'eqs': sel,
+                    'logK': [round(POOL[nm][2] + rng.uniform(-1.5, 1.5), 6) for nm in sel], 'subs': subs,
+                    'init': [55.5 if s_ == 'H2O' else float('%.6g' % 10 ** rng.uniform(-6, -1)) for s_ in subs]}
+            d, d2 = dict(spec, variant='default'), dict(spec, variant='solve')
+            cases += [d, d2]
+            rate_ab.append(d)
+            solve_ab.append(d2)
+        # structural: stage i of a multi-stage chain is built from NumSys class i
+        chains = [['log', 'lin'], ['lin', 'log'], ['log', 'square'], ['square', 'lin'], ['log', 'lin', 'square']]
+        types = ['chained_conditional', 'chained_conditional', 'conditional_chained', 'static_conditions']
+        for j in range(max(8, n // 40)):
+            if j % 3 == 2:
+                nm = rng.choice(list(SALTS))
+                solid, ions, lk = SALTS[nm]
+                sys_ = {'kind': 'salt', 'salt': nm, 'logKsp': round(lk + rng.uniform(-2, 2), 6), 'flip': rng.random() < 0.5,
+                        'subs': list(ions) + [solid]}
+            else:
+                sel = rng.sample(names, rng.choice([1, 2]))
+                subs = []
+                for nm in sel:
+                    for s_ in list(POOL[nm][0]) + list(POOL[nm][1]):
+                        if s_ not in subs:
+                            subs.append(s_)
+                sys_ = {'kind': 'homog', 'eqs': sel, 'logK': [round(POOL[nm][2] + rng.uniform(-2, 2), 6) for nm in sel], 'subs': subs}
+            cases.append({'kind': 'stages', 'system': sys_, 'chain': chains[j % len(chains)], 'neqsys_type': types[j % len(types)],
+                          'y': [round(rng.uniform(0.05, 2.0), 4) for _ in sys_['subs']],
+                          'init': [float('%.4g' % 10 ** rng.uniform(-4, 0)) for _ in sys_['subs']]})
         for j in range(n_s):
             nm = rng.choice(list(SALTS))
             solid, ions, lk = SALTS[nm]
@@ -528,7 +578,10 @@ class C08(Property):
                 stoich[0] = -stoich[0]
             c0 = [float('%.6g' % 10 ** rng.uniform(-4, 0)) for _ in range(m)]
             cases.append({'kind': 'scalar', 'stoich': stoich, 'c0': c0, 'logK': round(rng.uniform(-6, 6), 4)})
-        cases.append({'kind': 'rate', 'runs': rate_specs})
+        cases.append({'kind': 'rate', 'chain': 'root() default (NumSysLog)', 'pool': 'general', 'runs': rate_specs})
+        cases.append({'kind': 'rate', 'chain': 'solve()/_solve default (NumSysLog, NumSysLin)', 'pool': 'general', 'runs': solve_specs})
+        cases.append({'kind': 'rate', 'chain': 'root() default (NumSysLog)', 'pool': 'acidbase', 'runs': rate_ab})
+        cases.append({'kind': 'rate', 'chain': 'solve()/_solve default (NumSysLog, NumSysLin)', 'pool': 'acidbase', 'runs': solve_ab})
         return cases
 
     # ------------------------------------------------------------------------------------------
@@ -572,9 +625,16 @@ class C08(Property):
             init = dict(zip(c['subs'], c['init']))
             with warnings.catch_warnings():
                 warnings.simplefilter('ignore')
-                x, sol, sane = es.root(init, **_variant_kwargs(c['variant']))
+                if c['variant'] == 'solve':
+                    r_ = es.solve(init)                      # EqCalcResult: default chain (NumSysLog, NumSysLin) of _solve
+                    x, sane = np.asarray(r_.conc, dtype=float).reshape(-1), bool(r_.sane)
+                    sol = {'success': bool(r_.success)}
+                else:
+                    x, sol, sane = es.root(init, **_variant_kwargs(c['variant']))
             res.update(success=_success(sol), sane=bool(sane), x=[float(v) for v in np.asarray(x, dtype=float)], maxfun=_max_fun(sol),
                        inner_success=bool(_inner(sol).get('success')) if 'success' in _inner(sol) else None)
+            if c['variant'] == 'solve':          # EqCalcResult carries no stage info; known_key fetches it from _solve when needed
+                del res['maxfun'], res['inner_success']
             res['outcome'] = ('success' if res['success'] else 'nosuccess') + ('+sane' if res['sane'] else '+insane')
         except Exception as e:
             res.update(success=False, sane=False, x=None, exc='%s: %s' % (type(e).__name__, str(e)[:120]), outcome='exception:' + type(e).__name__)
@@ -838,8 +898,8 @@ class C08(Property):
             else:
                 bad = self._genuine(es, c0, r['x'])
             if bad:
-                return 'root(%s) reports success and a sane result but %s (residual reported by the solver: %r)' % (
-                    c['variant'], bad[1], r['maxfun'])
+                return '%s reports success and a sane result but %s (residual reported by the solver: %r)' % (
+                    'solve() [default chain (NumSysLog, NumSysLin)]' if c['variant'] == 'solve' else 'root(%s)' % c['variant'], bad[1], r.get('maxfun'))
             if kind == 'single':
                 from chempy._equilibrium import solve_equilibrium
                 st = es.stoichs()[0].astype(int)
@@ -874,13 +934,65 @@ class C08(Property):
                 return None
             return 'solve_equilibrium: Q/K = %r and the residual keeps its sign within +-%g of the returned coordinate' % (1 - f0 / K, d)
         if kind == 'rate':
-            runs = [self._run(d) for d in c['runs']]
-            n = len(runs)
-            ok = sum(1 for r in runs if r['success'] and r['sane'])
-            self.measured_rate = (ok, n)
+            n = len(c['runs'])
+            ok = 0
+            for d in c['runs']:
+                r = self._run(d)
+                if r['success'] and r['sane']:
+                    if 'genuine' not in r:
+                        es = self._build_pool(d)
+                        r['genuine'] = self._genuine(es, es.as_per_substance_array(dict(zip(d['subs'], d['init']))), r['x']) is None
+                    ok += bool(r['genuine'])
+            self.measured_rates = getattr(self, 'measured_rates', {})
+            self.measured_rates[(c.get('chain'), c.get('pool'))] = (ok, n)
             if n >= 40 and ok < 0.8 * n:
-                return 'default chain reported success+sane on only %d of %d well-conditioned homogeneous systems' % (ok, n)
+                return '%s reported success, a sane and a genuine result on only %d of %d well-conditioned homogeneous %s systems' % (
+                    c.get('chain', 'default chain'), ok, n, c.get('pool', ''))
             return None
+        if kind == 'stages':
+            return self._oracle_stages(c)
+        return None
+
+    def _oracle_stages(self, c):
+        """stage i of a multi-stage chain must be built from NumSys class i: the residual function (and the post-processor) of each
+        per-stage system produced by get_neqsys_* is compared with NumSys_i(eqsys).f evaluated directly"""
+        import numpy as np
+        from chempy.equilibria import NumSysLin, NumSysLog
+        from chempy._eqsys import NumSysSquare
+        cls = {'log': NumSysLog, 'lin': NumSysLin, 'square': NumSysSquare}
+        es = self._build_pool(c['system'])
+        chain = [cls[k] for k in c['chain']]
+        ne = es.get_neqsys(c['neqsys_type'], NumSys=tuple(chain))
+        npt = len(es.phase_transfer_reaction_idxs())
+        cond_sets = [(False,) * npt] if (c['neqsys_type'] == 'static_conditions' or npt == 0) else [(False,) * npt, (True,) * npt]
+        y = np.array(c['y'], dtype=float)
+        params = np.concatenate((np.array(c['init'], dtype=float), [float(k) for k in es.eq_constants()]))
+        for conds in cond_sets:
+            if c['neqsys_type'] == 'chained_conditional':
+                stages = [cn.neqsys_factory(conds) for cn in ne.neqsystems]
+            elif c['neqsys_type'] == 'conditional_chained':
+                stages = list(ne.neqsys_factory(conds).neqsystems)
+            else:
+                stages = list(ne.neqsystems)
+            if len(stages) != len(chain):
+                return '%s chain %s has %d stages' % (c['neqsys_type'], c['chain'], len(stages))
+            for i, (st, NS) in enumerate(zip(stages, chain)):
+                got = np.asarray(st.f_cb(y, params), dtype=float).reshape(-1)
+
+                def direct(N):
+                    return np.asarray([float(v) for v in N(es, precipitates=conds, backend='math').f(list(y), list(params))])
+                want = direct(NS)
+                if got.shape != want.shape or not np.allclose(got, want, rtol=1e-9, atol=1e-300):
+                    like = [k for k, N in cls.items() if direct(N).shape == got.shape and np.allclose(got, direct(N), rtol=1e-9, atol=1e-300)]
+                    return ('stage %d of the %s chain %s (conditions %s) does not evaluate the %s residual function at y=%s%s' % (
+                        i, c['neqsys_type'], c['chain'], list(conds), NS.__name__, c['y'],
+                        '; it evaluates like %s' % ', '.join(like) if like else ''))
+                ns_obj = NS(es, precipitates=conds)
+                if ns_obj.post_processor is not None:
+                    a = np.asarray(st.post_process(y, params)[0], dtype=float)
+                    b = np.asarray(ns_obj.post_processor(y, params)[0], dtype=float)
+                    if not np.allclose(a, b, rtol=1e-12):
+                        return 'stage %d of the %s chain %s does not use the post-processor of %s' % (i, c['neqsys_type'], c['chain'], NS.__name__)
         return None
 
     def known_key(self, c, failure):
@@ -890,8 +1002,17 @@ class C08(Property):
         NumSysLin/NumSysSquare, the last stage itself reports success, and the residual that stage reports at the returned point
         exceeds the solver tolerance (1e-8).  Anything else (small reported residual but wrong state, success not reported by the
         stage, the default / logarithmic chain) is a new violation."""
-        if c.get('kind') in ('homog', 'salt', 'single') and c.get('variant') in ('lin', 'square', 'loglin', 'loglin_rref', 'condchain'):
+        if c.get('kind') in ('homog', 'salt', 'single') and c.get('variant') in ('lin', 'square', 'loglin', 'loglin_rref', 'condchain', 'solve'):
             r = self._run(c)
+            if c['variant'] == 'solve' and 'maxfun' not in r:      # EqCalcResult does not expose the stage info: ask _solve
+                try:
+                    es = self._build_pool(c)
+                    with warnings.catch_warnings():
+                        warnings.simplefilter('ignore')
+                        _, sol, _ = es._solve(es.as_per_substance_array(dict(zip(c['subs'], c['init']))))
+                    r['maxfun'], r['inner_success'] = _max_fun(sol), (bool(_inner(sol).get('success')) if 'success' in _inner(sol) else None)
+                except Exception:
+                    r['maxfun'] = None
             if (r.get('maxfun') is not None and r['maxfun'] > 1e-8 and r.get('inner_success') is True
                     and isinstance(failure, str) and 'reports success and a sane result' in failure):
                 return 'lm-nonroot-reported-as-success'
@@ -907,7 +1028,11 @@ class C08(Property):
             return op
         k = c.get('kind')
         if k in ('homog', 'salt', 'single'):
-            return 'solve:%s:%s:%s' % (k, c['variant'], self._run(c)['outcome'])
+            return 'solve:%s:%s:%s' % (c.get('family', k), c['variant'], self._run(c)['outcome'])
+        if k == 'rate':
+            return 'solve:rate:%s:%s' % (c.get('pool'), 'solve' if 'solve' in c.get('chain', '') else 'root')
+        if k == 'stages':
+            return 'stages:%s:%s' % (c['neqsys_type'], '-'.join(c['chain']))
         return 'solve:' + str(k)
 
     def nontrivial(self, c):
